@@ -249,7 +249,9 @@ def uncomputeAll (keep : List Nat) : M Unit := do
   uncomputeAllLoop keep qc.free qc.nextGid qc.gates.toList.reverse
   modQC fun q => { q with nextGid := q.nextGid + qc.nextGid }
 
-def sortNat (l : List Nat) : List Nat := (l.toArray.qsort (· < ·)).toList
+/-- ascending sort of qubit indices (the sorted permutation is unique, so any sorting
+algorithm gives the same list; `List.mergeSort` comes with the lemmas the proofs need) -/
+def sortNat (l : List Nat) : List Nat := l.mergeSort (fun a b => decide (a ≤ b))
 
 def cxAll (d : Nat) : List Nat → M Unit
   | [] => pure ()
@@ -510,5 +512,17 @@ def retNeverControl (gates : List AGate) (r : Nat) : Bool :=
 def wellFormed (gates : List AGate) (numQubits : Nat) : Bool :=
   gates.all fun g => (g.cls.isMCXLike || g.cls.isNop) && g.wires.Nodup && g.wires.all (· < numQubits)
     && g.wires.length == g.cls.nQubits
+
+/-! ## Decidable side conditions of the structural theorems (`QV/Props/C02.lean`) -/
+
+/-- the name has the shape of an ancilla name `anc_<k>` created by `get_free_ancilla` -/
+def ancLike (x : String) : Bool := x.toList.take 4 == ['a', 'n', 'c', '_']
+
+/-- names the compiler itself binds to scratch qubits: temporaries `__x` (never promoted, their
+name is deleted when the qubit is promoted under another name) and ancilla names -/
+def scratchName (x : String) : Bool := x.startsWith "__" || ancLike x
+
+/-- names the compiler binds on its own: constants, temporaries, ancillas -/
+def reservedName (x : String) : Bool := x == "FALSE" || x == "TRUE" || scratchName x
 
 end QV.Compiler
